@@ -60,6 +60,8 @@ pub mod stack;
 pub mod thread;
 pub mod types;
 pub mod vm;
+#[cfg(feature = "verif")]
+pub mod verif;
 
 mod array;
 mod derive;
